@@ -104,7 +104,7 @@ def replay_case(oracle, case):
     return ["%s: %s" % (k, w) for k, w in r["viol"]]
 
 
-def run(ctx, oracle, level, rule, assumptions, plan=None, nontrivial_stat=None, extra_cases=(), key_with_case=True, model_checking=False, key_fn=None):
+def run(ctx, oracle, level, rule, assumptions, plan=None, nontrivial_stat=None, extra_cases=(), key_with_case=True, model_checking=False, key_fn=None, extra_cov=None):
     core.bind_repo()
     plan = plan or sweep.default_plan(ctx.tier)
     lv = sweep.levels(ctx.tier, plan)
@@ -160,4 +160,10 @@ def run(ctx, oracle, level, rule, assumptions, plan=None, nontrivial_stat=None, 
         cov["states"] = c.get("states", 0)
         cov["transitions"] = c.get("transitions", 0)
         cov["traces_validated_against_impl"] = c.get("streams_matched_sideband", 0)
+    if extra_cov:
+        for k, v in extra_cov.items():
+            if k in ("states", "transitions", "evaluations", "distinct_nontrivial") and isinstance(cov.get(k), int):
+                cov[k] += v
+            else:
+                cov[k] = v
     return ctx.finish(level, cov, assumptions)
